@@ -120,6 +120,15 @@ def rule_R1(ctx):
                             reg = Q.dominated_region(b, succ)
                             if any(pb in reg for pb, pt in Q.calls(b, "Vec::<T, A>::push")):
                                 polarity = "keeps-grease"
+            if polarity is None:
+                # the test may reach the branch through a local or an inlined helper: judge every push by the conditions that hold there
+                pols = set()
+                for pb, pt in Q.calls(b, "Vec::<T, A>::push"):
+                    for c in Q.canon_conds(P, T.dom_conds(b, S, pb)):
+                        if c[0] == "bool" and T.strip(c[1])[0] == "call" and len(T.strip(c[1])) > 3 and T.strip(c[1])[3] == blk:
+                            pols.add("keep-when-not-grease" if c[2] is False else "keeps-grease")
+                if len(pols) == 1:
+                    polarity = pols.pop()
             direct[b.path] = polarity
             ctx.check(polarity in ("keep-when-not-grease", "is-grease"), "R1", "filter:%s" % owner, "membership in TLS_GREASE_VALUES, %s" % polarity,
                       "GREASE filter in %s has the wrong polarity (%s): GREASE values are kept / real values dropped" % (owner, polarity), ctx.loc(b, blk))
@@ -466,7 +475,8 @@ def rule_R5_R6_R7(ctx):
                       "signature algorithms must keep wire order" if "signature_algorithms" in fields else "the original-order variant must not be reordered"),
                   ctx.loc(gen, blk))
     ctx.floor("R5", "sort sites", n, 2)
-    rets = Q.calls(gen, "::retain")
+    # `v.retain(p)` or the same removal as `v.into_iter().filter(p).collect()`
+    rets = Q.calls(gen, "::retain") + [(blk_, t_) for blk_, t_ in gen.calls() if callee_of(t_).endswith(("Iterator::filter", "Iterator>::filter"))]
     for blk, t in rets:
         a = Q.call_args(gen, S, blk, t)
         fields = {x[2] for x in T.walk(a[0]) if x[0] == "field"}
